@@ -10,6 +10,7 @@ import (
 	"golang.org/x/tools/go/ssa"
 
 	"wtfverif/checker/internal/interval"
+	"wtfverif/checker/internal/bounds"
 	"wtfverif/checker/internal/load"
 	"wtfverif/checker/internal/origin"
 	"wtfverif/checker/internal/pathev"
@@ -607,43 +608,56 @@ func c15Retry(c *Ctx, sx *symx.Ctx) {
 		return
 	}
 	ld := loads[0]
-	// counter phi: (1, attempt+1) in a block whose If compares it with MaxAttempts
+	// the attempt counter: a loop phi (1, attempt+1) whose loop contains the load;
+	// the load runs only while attempt <= MaxAttempts — whatever the spelling of
+	// the loop (condition in the header, or a break in the body before the next
+	// round, MaxAttempts read from the field or from a local copy)
+	be := bounds.New(sx, c.P.CallGraph(), c.P.IsRepoFunc)
+	bf := be.Of(fn)
+	var maxExprs []string
+	ssau.ForEachInstr(fn, false, func(in ssa.Instruction) {
+		if v, ok := in.(ssa.Value); ok {
+			if _, isMax := ssau.IsFieldLoad(v, recPkg+".RetryConfig", "MaxAttempts"); isMax {
+				maxExprs = append(maxExprs, f.E(v))
+			}
+		}
+	})
 	var ctr *ssa.Phi
-	var hdr *ssa.If
-	for _, iff := range ssau.Ifs(fn) {
-		op, x, y, ok := ssau.CondOf(iff.Cond)
-		if !ok {
-			continue
-		}
-		phi, isPhi := x.(*ssa.Phi)
-		if !isPhi || phi.Block() != iff.Block() {
-			continue
-		}
-		if _, isMax := ssau.IsFieldLoad(y, recPkg+".RetryConfig", "MaxAttempts"); !isMax {
-			continue
-		}
-		if op != token.LEQ {
-			r.Bad("O-2", fk+"#counted-loop", c.P.Pos(iff.Cond.Pos()), "the loop condition is attempt "+op.String()+" MaxAttempts, want attempt <= MaxAttempts starting at 1")
+	ssau.ForEachInstr(fn, false, func(in ssa.Instruction) {
+		phi, ok := in.(*ssa.Phi)
+		if !ok || !(phi.Block().Dominates(ld.Block()) || phi.Block() == ld.Block()) || !ssau.Reachable(ld.Block(), phi.Block(), nil) {
 			return
 		}
-		init, step := false, false
+		init, step, other := false, false, false
 		for _, e := range phi.Edges {
 			if k, ok := ssau.ConstInt(e); ok && k == 1 {
 				init = true
 			} else if bo, ok := e.(*ssa.BinOp); ok && bo.Op == token.ADD && bo.X == ssa.Value(phi) {
 				if k, ok := ssau.ConstInt(bo.Y); ok && k == 1 {
 					step = true
+				} else {
+					other = true
 				}
+			} else {
+				other = true
 			}
 		}
-		if init && step && len(phi.Edges) == 2 {
-			ctr, hdr = phi, iff
+		if init && step && !other {
+			ctr = phi
+		}
+	})
+	bounded := false
+	if ctr != nil {
+		for _, m := range maxExprs {
+			if bf.LT(ctr, m, false, ld.Block()) {
+				bounded = true
+			}
 		}
 	}
-	if !r.Check(ctr != nil, "O-2", fk+"#counted-loop", c.P.Pos(fn.Pos()), "attempt runs 1..MaxAttempts by +1", "no loop of the form `for attempt := 1; attempt <= MaxAttempts; attempt++` found: the number of load attempts is not bounded by the configuration") {
+	if !r.Check(ctr != nil && bounded, "O-2", fk+"#counted-loop", c.P.Pos(fn.Pos()), "the load runs only while attempt (1, 2, ...) <= MaxAttempts", "no attempt counter starting at 1 and stepped by one that is proven <= MaxAttempts at the load: the number of load attempts is not bounded by the configuration") {
 		return
 	}
-	body := hdr.Block().Succs[0]
+	hdrBlock := ctr.Block()
 	eng := pathev.New(func(in ssa.Instruction) []string {
 		if in == ssa.Instruction(ld) {
 			return []string{"load"}
@@ -653,7 +667,7 @@ func c15Retry(c *Ctx, sx *symx.Ctx) {
 		}
 		return nil
 	}, nil)
-	m, early, ok := eng.Between(body, hdr.Block())
+	m, early, ok := eng.Between(hdrBlock, hdrBlock)
 	if ok {
 		r.Check(m.Get("load").ExactlyOnce() && m.Get("sleep").AtMostOnce(), "O-2", fk+"#one-load-per-iteration", c.P.Pos(ld.Pos()), "each completed iteration performs exactly one load and at most one sleep", fmt.Sprintf("per iteration: load%v sleep%v", m.Get("load"), m.Get("sleep")))
 	} else {
@@ -681,17 +695,13 @@ func c15Retry(c *Ctx, sx *symx.Ctx) {
 	}
 	// sleep only if another attempt follows
 	for _, sl := range callsTo(fn, "time.Sleep") {
-		cd := ssau.ControlDeps(fn)
 		guarded := false
-		for _, d := range ssau.TransitiveControlDeps(cd, sl.Block()) {
-			op, x, y, ok := ssau.CondOf(d.If().Cond)
-			if ok && x == ssa.Value(ctr) && d.Then && op == token.LSS {
-				if _, isMax := ssau.IsFieldLoad(y, recPkg+".RetryConfig", "MaxAttempts"); isMax {
-					guarded = true
-				}
+		for _, m := range maxExprs {
+			if bf.LT(ctr, m, true, sl.Block()) {
+				guarded = true
 			}
 		}
-		r.Check(guarded, "O-2", fk+"#no-sleep-after-last-attempt", c.P.Pos(sl.Pos()), "Sleep is control-dependent on attempt < MaxAttempts", "the loop sleeps after the last attempt")
+		r.Check(guarded, "O-2", fk+"#no-sleep-after-last-attempt", c.P.Pos(sl.Pos()), "Sleep runs only while attempt < MaxAttempts", "the loop sleeps after the last attempt")
 		// the delay passed is calculateDelay(attempt)
 		dOK := false
 		if dc, ok := sl.Common().Args[0].(*ssa.Call); ok && ssau.CallName(dc) == drMeth+"calculateDelay" && dc.Common().Args[1] == ssa.Value(ctr) {
